@@ -53,8 +53,13 @@
   `C10c_parse_local4` with `GoodFrame3`: Parse is local on every frame of at least 8 bytes except TLV table replies with
   Length < 32, flow-mods failing `FlowModInFrame`, multipart replies failing `FlowStatsInFrame`, experimenter frames cut
   before their Length field.  Still outside the predicates: action kinds not in `ActionKindCovered` (set-field, Nicira).
+  Last round: the chain re-established over `ActionKindCovered2` (old kinds + set-field, conjunction, ct_clear, dec_ttl,
+  resubmit, resubmit-table, reg-move, controller): `FlowModInFrame2`, `FlowStatsInFrame2`, `GoodFrame32`,
+  `C10c_parse_local5`; an Open-vSwitch-style flow-mod (set-field + resubmit-table + ct_clear) is a good frame.  Outside:
+  reg-load / output-reg (`data[12:16]` against the capacity; local on ≥ 16 bytes), learn, note, reg-load2, nat, conntrack,
+  dec-ttl-cnt-ids.
 -/
-import OFV.Lemmas.Local9
+import OFV.Lemmas.Local10
 namespace OFV.Props.C10c
 open OFV OFV.Go OFV.Model
 
@@ -600,5 +605,56 @@ example (tail : Bytes) : GoodFrame3 1 ⟨fmGoodFrame ++ tail, 88⟩ := by
     rw [e] at htb; cases htb; rfl
   subst this
   exact ⟨fun _ => fmGoodFrame_inframe tail, fun h => absurd h (by decide), fun h => absurd h (by decide)⟩
+
+/-! ### last round -/
+
+/-- more Nicira kinds whose decoders are local without any condition (resubmit, resubmit-table, reg-move, controller,
+    conjunction, ct_clear, dec_ttl) and set-field -/
+theorem C10c_nicira_local (recv : V) (s t : Slice) (hs : s.WF) (ht : t.WF) (h : s.Agree t) :
+    NXActionResubmit.unmarshal recv s = NXActionResubmit.unmarshal recv t ∧
+    NXActionResubmitTable.unmarshal recv s = NXActionResubmitTable.unmarshal recv t ∧
+    NXActionRegMove.unmarshal recv s = NXActionRegMove.unmarshal recv t ∧
+    NXActionController.unmarshal recv s = NXActionController.unmarshal recv t ∧
+    NXActionConjunction.unmarshal recv s = NXActionConjunction.unmarshal recv t ∧
+    NXActionCTClear.unmarshal recv s = NXActionCTClear.unmarshal recv t ∧
+    NXActionDecTTL.unmarshal recv s = NXActionDecTTL.unmarshal recv t ∧
+    ActionSetField.unmarshal recv s = ActionSetField.unmarshal recv t :=
+  have haw : Slice.AW s t := ⟨hs, ht, h⟩
+  ⟨NXActionResubmit_loc recv haw, NXActionResubmitTable_loc recv haw, NXActionRegMove_loc recv haw,
+    NXActionController_loc recv haw, NXActionConjunction_loc recv haw, NXActionCTClear_loc recv haw,
+    NXActionDecTTL_loc recv haw, ActionSetField_loc recv haw⟩
+
+/-- reg-load and output-reg re-slice `data[12:16]` against the capacity: local on slices of at least 16 bytes -/
+theorem C10c_nicira_reg_local_partial (recv : V) (s t : Slice) (hs : s.WF) (ht : t.WF) (h : s.Agree t) (h16 : 16 ≤ t.len) :
+    NXActionRegLoad.unmarshal recv s = NXActionRegLoad.unmarshal recv t ∧
+    NXActionOutputReg.unmarshal recv s = NXActionOutputReg.unmarshal recv t :=
+  have haw : Slice.AW s t := ⟨hs, ht, h⟩
+  ⟨NXActionRegLoad_loc_partial recv haw h16, NXActionOutputReg_loc_partial recv haw h16⟩
+
+example : 16 ≤ (Slice.exact (zeros 24)).len := by decide
+
+/-- an Open-vSwitch-style flow-mod (112 bytes: apply-actions [set-field in_port:=1, resubmit-table 5, ct_clear]) passes the
+    widened in-frame check, whatever follows it in the buffer (the round-5 check rejected it: `fmOvsFrame_not_inframe_old`) -/
+theorem C10c_flowmod_ovs_conformant_inframe (tail : Bytes) : FlowModInFrame2 ⟨fmOvsFrame ++ tail, 112⟩ := fmOvsFrame_inframe2 tail
+
+/-- FINAL STATEMENT (fifth form), over the widened kind predicate `ActionKindCovered2`.  Parse is local — the delivered
+    message depends neither on what the stream's recycled buffer holds behind the frame, nor on its capacity, nor on the
+    nesting bounds derived from it — on every frame of at least 8 bytes EXCEPT: (a) TLV table replies with Length < 32;
+    (b) flow-mods whose visible bytes fail `FlowModInFrame2`; (c) multipart replies whose visible bytes fail
+    `FlowStatsInFrame2`; (d) experimenter frames cut before their own Length field; a bundle-add is good when its
+    embedded message is. -/
+theorem C10c_parse_local5 (n : Nat) (s t : Slice) (hs : s.WF) (ht : t.WF) (h : s.Agree t) (hg : GoodFrame32 n t) (d d' : Nat) :
+    parse d s = parse d' t := parse_good4_loc2 n ⟨hs, ht, h⟩ hg d d'
+
+/-- the Open-vSwitch-style flow-mod is a good frame, with any stale bytes behind it -/
+example (tail : Bytes) : GoodFrame32 1 ⟨fmOvsFrame ++ tail, 112⟩ := by
+  unfold GoodFrame32
+  refine ⟨by show 8 ≤ 112; decide, ?_⟩
+  intro tb htb
+  have : tb = 14 := by
+    have e : (Slice.mk (fmOvsFrame ++ tail) 112).byteAt 1 = .ok 14 := rfl
+    rw [e] at htb; cases htb; rfl
+  subst this
+  exact ⟨fun _ => fmOvsFrame_inframe2 tail, fun h => absurd h (by decide), fun h => absurd h (by decide)⟩
 
 end OFV.Props.C10c
